@@ -1,12 +1,16 @@
-// ad-hoc probe (not used by any check): world3 query + DP rewrite, to see backtraces
-use qrlew::{relation::{Relation, Variant as _}, sql::{parse, relation::QueryWithRelations}, differential_privacy::DpParameters};
+// ad-hoc probe (not used by any check)
+use qrlew::data_type::{DataType, function::{self, Function as _, Optional}};
 fn main() {
-    let rels = qvh::s_total::world3();
-    let a: Vec<String> = std::env::args().collect();
-    let sql = &a[1]; let eps: f64 = a.get(2).map(|x| x.parse().unwrap()).unwrap_or(1.0); let delta: f64 = a.get(3).map(|x| x.parse().unwrap()).unwrap_or(1e-5);
-    let q = parse(sql).unwrap();
-    let r = Relation::try_from(QueryWithRelations::new(&q, &rels)).unwrap();
-    println!("compiled: {}", r.schema());
-    let dp = r.rewrite_with_differential_privacy(&rels, None, qvh::s_total::privacy_unit3(), DpParameters::from_epsilon_delta(eps, delta));
-    println!("{:?}", dp.map(|d| d.relation().schema().to_string()));
+    let fl = DataType::float_values((0..=10).map(|x| x as f64).collect::<Vec<f64>>());
+    let arg = DataType::structured_from_data_types([fl.clone(), DataType::integer_interval(0, 10)]);
+    let shared = Optional::new(function::minus());
+    let shared_plain = function::minus();
+    for (name, f) in [("fresh-plain", 0), ("shared-plain", 1), ("fresh-optional", 2), ("shared-optional", 3)] {
+        let mut seen: std::collections::BTreeMap<String, usize> = Default::default();
+        for _ in 0..5000 {
+            let r = match f { 0 => function::minus().super_image(&arg), 1 => shared_plain.super_image(&arg), 2 => Optional::new(function::minus()).super_image(&arg), _ => shared.super_image(&arg) };
+            *seen.entry(r.map(|t| t.to_string()).unwrap_or_else(|e| e.to_string())).or_default() += 1;
+        }
+        for (k, v) in &seen { println!("{name}: {v} x {}", &k[..k.len().min(120)]); }
+    }
 }
